@@ -1,6 +1,8 @@
 use crate::report::{Ctx, Outcome, Tier};
 
 pub mod c01;
+pub mod c07;
+pub mod c13;
 
 /// One property check. Cases are numbered globally (0..total); case `i` derives all its random
 /// choices from (seed, i), so a violation replays from those two numbers alone.
@@ -29,7 +31,7 @@ pub trait Check: Sync {
 }
 
 pub fn all() -> Vec<Box<dyn Check>> {
-    vec![Box::new(c01::C01)]
+    vec![Box::new(c01::C01), Box::new(c07::C07), Box::new(c13::C13)]
 }
 
 pub fn find(id: &str) -> Option<Box<dyn Check>> {
